@@ -32,7 +32,7 @@ ASSUMPTIONS = ["'no writes' is judged by: database file bytes identical, connect
 
 def budget(tier):
     if tier == "quick":
-        return {"runs": 2400, "wall": 120, "chunk": 8}
+        return {"runs": 2000, "wall": 120, "chunk": 8}
     return {"runs": 80000, "wall": 1500, "chunk": 8}
 
 
@@ -119,7 +119,8 @@ def gen(rng, tier):
             "end": rng.choice(["exit", "exit", "crash", "drop"]),
             "refuse_fault": None, "do_a": rng.random() < 0.6, "gc_at": rng.randrange(14),
             "old_state": rng.choice(["as_imported", "as_imported", "as_imported", "emptied", "partly_deleted"]),
-            "race": rng.random() < 0.2, "race_seed": rng.getrandbits(32), "live_generator": rng.random() < 0.6}
+            "race": rng.random() < 0.2, "race_seed": rng.getrandbits(32), "live_generator": rng.random() < 0.6,
+            "wal_old": rng.random() < 0.15}
     r = rng.random()
     if r < 0.3:
         case["refuse_fault"] = {"frac": rng.random(), "mode": rng.choice(["error", "crash", "cancel"])}
@@ -313,6 +314,19 @@ def run(case):
                               kind="unreadable"))
 
         # ------------------------------------------------------------------ (a) force
+        if case.get("do_a") and not V and case.get("wal_old"):
+            # the existing database was switched to WAL journalling (documented option for writing while reading), written
+            # to, and its process was killed: a.db-wal / a.db-shm are left next to it
+            wn = w.node()
+            call(wn, {"op": "open", "h": "old", "db": "a.db", "kw": {"pragmas": {"synchronous": "NORMAL", "journal_mode": "WAL",
+                                                                                 "main.page_size": 4096, "main.cache_size": 10000}}})
+            wline = ('chrW\twal\tgene\t1\t9\t.\t+\t.\tID=walfeature' if case["db"]["fmt"] == "gff3" else
+                     'chrW\twal\tgene\t1\t9\t.\t+\t.\tgene_id "WALG";')
+            call(wn, {"op": "update", "h": "old", "data": {"form": "string", "text": wline + "\n"},
+                      "kw": {"merge_strategy": "create_unique", "make_backup": False, "disable_infer_genes": True, "disable_infer_transcripts": True}})
+            wn.kill()
+            if os.path.exists(path + "-wal"):
+                probes["old_database_in_wal_mode_with_wal_file_left"] = 1
         if case.get("do_a") and not V:
             d0 = file_digest(path)
             l0 = logical(raw_dump(path))
@@ -332,7 +346,8 @@ def run(case):
             else:
                 nontrivial = nontrivial or r["kinds"].get("sql.connect", 0) > 0
                 probes["refused"] = 1
-            if file_digest(path) != d0 or logical(raw_dump(path)) != l0:
+            # (with a write-ahead log next to the file, merely connecting may checkpoint it: bytes move, content must not)
+            if (file_digest(path) != d0 and not case.get("wal_old")) or logical(raw_dump(path)) != l0:
                 V.append(viol("C19.force", "refused create_db(force=False) modified the existing database file", kind="clobbered"))
             rf = case.get("refuse_fault")
             if rf and not V and r["points"] > 0:
@@ -345,7 +360,7 @@ def run(case):
                 except NodeDied:
                     died = True
                     probes["crash_in_refused_call"] = 1
-                if file_digest(path) != d0 or logical(raw_dump(path)) != l0:
+                if (file_digest(path) != d0 and not case.get("wal_old")) or logical(raw_dump(path)) != l0:
                     V.append(viol("C19.force", "refused create_db(force=False) + %s fault modified the existing database" % rf["mode"],
                                   kind="clobbered_under_fault", mode=rf["mode"]))
                 if died:
